@@ -132,7 +132,7 @@ func init() {
 			})
 		}})
 
-	register(&Obligation{ID: "C12.b", Props: []string{"C12"}, Template: "sibling-guard",
+	register(&Obligation{ID: "C12.b", Props: []string{"C12", "C01"}, Template: "sibling-guard",
 		Desc: "jobSnapshot.addOperatorSnapshot / addSourceRunnerSnapshot: the completion flag and the collected data change only for a known sender that has not acknowledged yet (unknown and duplicate senders return before any mutation)",
 		Run: func(r *Run) {
 			type sib struct {
@@ -216,7 +216,7 @@ func init() {
 			}
 		}})
 
-	register(&Obligation{ID: "C12.c", Props: []string{"C12"}, Template: "guard+must-follow",
+	register(&Obligation{ID: "C12.c", Props: []string{"C12", "C01"}, Template: "guard+must-follow",
 		Desc: "publication (finishSnapshot) is reachable only when isComplete() is true and is followed by clearing the pending slot; isComplete requires every source-runner flag and every operator flag",
 		Run: func(r *Run) {
 			pend := r.P.Field("storage/snapshots", "storeState", "pendingSnapshot")
@@ -285,7 +285,7 @@ func init() {
 			r.checkEvery(ev)
 		}})
 
-	register(&Obligation{ID: "C12.d", Props: []string{"C12", "C14"}, Template: "guard+monotone",
+	register(&Obligation{ID: "C12.d", Props: []string{"C12", "C14", "C13"}, Template: "guard+monotone",
 		Desc: "CreateCheckpoint / CreateSavepoint install a new pending snapshot only when none is pending, with the freshly incremented id; checkpointID is only ever incremented, except in LoadCheckpoint where it is set to the loaded checkpoint's id",
 		Run: func(r *Run) {
 			pend := r.P.Field("storage/snapshots", "storeState", "pendingSnapshot")
